@@ -24,7 +24,7 @@ def _make(name):
             "flex-e": lambda: FlexMFExplicitScorer(embedding_size=3, epochs=1), "flex-i": lambda: FlexMFImplicitScorer(embedding_size=3, epochs=1)}[name]()
 
 def gen(rng: random.Random, tier: str):
-    reps = {"quick": 1, "thorough": 20}[tier]
+    reps = {"quick": 1, "thorough": 80}[tier]
     for _ in range(reps):
         nu, ni = rng.randint(8, 14), rng.randint(6, 11)
         rows = [[100 + u, 1000 + i, float(rng.choice([1, 2, 3, 4, 5]))] for u in range(nu) for i in range(ni) if rng.random() < 0.5]
@@ -125,4 +125,4 @@ def run(case: dict, lean: Lean) -> Outcome:
 SPEC = CheckSpec(
     pid="C04", theorems=["LK.Scatter.C04_Scatter_scoreList_eq_map", "LK.Scatter.C04_Scatter_multFirst_eq"], correspondence_ops=["c04.scatter"],
     nontrivial_rule="distinct (scorer, query set) reaching ≥1 of: each shipped scorer, each history form, unknown user, unknown candidate, empty candidates",
-    budgets={"quick": 14, "thorough": 280}, gen=gen, run=run, shrink=None)
+    budgets={"quick": 14, "thorough": 1120}, gen=gen, run=run, shrink=None)
